@@ -28,7 +28,7 @@ func TestRegress(t *testing.T) { harness.RunRegress(t) }
 const kfFC17 = "fc17-tcp-truncated-reply-parsed"
 
 // Fault kinds.
-var faults = []string{"stall", "eof", "eof-with-bytes", "ioerr", "ioerr-with-bytes", "oversize", "oversize-frame", "write", "cancel-before", "cancel-in-read", "deadline-before", "deadline-in-stall", "not-connected", "nil-request"}
+var faults = []string{"stall", "eof", "eof-with-bytes", "ioerr", "ioerr-with-bytes", "oversize", "oversize-frame", "write", "cancel-before", "cancel-in-read", "deadline-before", "deadline-in-stall", "not-connected", "connect-failed", "nil-request"}
 
 type faultCase struct {
 	Kind    string   `json:"kind"`
@@ -40,7 +40,8 @@ type faultCase struct {
 	PreCuts []int  `json:"pre_cuts"`
 	Fault   string `json:"fault"`
 	// Prior: kind of an earlier request call on the same client ("" none): success | stall | partial-stall | eof | ioerr
-	Prior string `json:"prior,omitempty"`
+	Prior      string `json:"prior,omitempty"`
+	PriorShape string `json:"prior_shape,omitempty"` // request of the earlier call: "" same | short | long
 	// Over (fault oversize-frame): the transport delivers a structurally well-formed register reply (consistent byte count,
 	// MBAP length / CRC) that is Over bytes longer than the largest legal ADU of the framing
 	Over int `json:"over,omitempty"`
@@ -150,11 +151,21 @@ func prepare(c faultCase) (prep, error) {
 		sc.ReadTimeoutMs = 3000
 	case "not-connected":
 		sc.NotConnected = true
+	case "connect-failed":
+		// Connect was called and failed (odd prefix: the dial function returned its error together with a typed-nil connection)
+		if cli.IsSerial(c.Kind) {
+			sc.NotConnected = true
+		} else if c.Prefix%2 == 1 {
+			sc.ConnectFails = "typed-nil"
+		} else {
+			sc.ConnectFails = "nil"
+		}
 	case "nil-request":
 		sc.NilRequest = true
 	}
 	sc.Stream, sc.Events = stream, ev
 	sc.Prior = c.Prior
+	sc.PriorReq = cli.PriorShapeReq(c.PriorShape)
 	if (c.Prior == "stall" || c.Prior == "partial-stall") && sc.ReadTimeoutMs > 100 {
 		sc.Prior = "eof" // keep the earlier call short when this case needs a long client timeout
 	}
@@ -265,7 +276,7 @@ func judge(c faultCase, p prep, o cli.Outcome) harness.Result {
 		if o.Elapsed > 2500*time.Millisecond {
 			return harness.Fail(desc+"call with an expired context deadline took %v", o.Elapsed)
 		}
-	case "not-connected":
+	case "not-connected", "connect-failed":
 		if len(o.Writes) != 0 || len(o.Reads) != 0 {
 			return harness.Fail(desc + "unconnected client touched a transport")
 		}
@@ -332,8 +343,9 @@ func genFault(t *rapid.T, kinds []string) faultCase {
 			c.Prefix = L - 1
 		}
 	}
-	if c.Fault != "not-connected" && c.Fault != "nil-request" && rapid.IntRange(0, 2).Draw(t, "with_prior") == 0 {
+	if c.Fault != "not-connected" && c.Fault != "connect-failed" && c.Fault != "nil-request" && rapid.IntRange(0, 2).Draw(t, "with_prior") == 0 {
 		c.Prior = rapid.SampledFrom([]string{"success", "stall", "partial-stall", "eof", "ioerr"}).Draw(t, "prior")
+		c.PriorShape = rapid.SampledFrom(cli.PriorShapes).Draw(t, "prior_shape")
 	}
 	if c.Prefix > 1 {
 		k := rapid.IntRange(0, 3).Draw(t, "ncuts")
@@ -455,6 +467,8 @@ func TestPrefixSweep(t *testing.T) {
 						prefixes := []int{0}
 						switch fault {
 						case "write", "cancel-before", "deadline-before", "not-connected", "nil-request":
+						case "connect-failed":
+							prefixes = []int{0, 1}
 						default:
 							prefixes = nil
 							for p := 0; p < L; p += stride {
